@@ -42,7 +42,7 @@ class KeyTerms:
         st = [(t, v) for c, t, v in S._field_stores if t.attr == 'input_tasks']
         if not st:
             raise AnalysisError('anchor: store to TaskParameterConfig.input_tasks not found')
-        self.INPUT_MAP = normalise(st[0][1])
+        self.INPUT_MAP = normalise(st[-1][1])  # the last recorded store is the final value (a loop-built map supersedes its `{}` initialiser)
         st = [(t, v) for c, t, v in S._field_stores if t.attr == '_data']
         self.TPC_DATA_STORES = [normalise(v) for _, v in st]
         rs = A.cls('ReprStr')
